@@ -47,6 +47,12 @@ func Run(run *vh.Run) {
 		}
 		world(run, label, wi, nBlocks)
 	}
+	for gi := 0; gi < run.N(6, 40); gi++ {
+		if run.WantCase(fmt.Sprintf("gov-replay-%d", gi)) {
+			GovReplay(run, gi, false)
+		}
+	}
+	run.Floor("replays of an executed Ethereum transaction through a governance proposal judged", run.Get("gov_replays_judged"), int64(run.N(4, 30)))
 	run.Rule = "Histories of Ethereum and Cosmos transactions on the real app with a hostile generator (unprotected, other chain ids, declared From != signer, payload or signature bit-flips after signing, stale and future nonces; Cosmos: wrong sequence / account number / chain id, foreign key, tampered body) and re-offering of every previously admitted transaction (same block, next block, k blocks later, CheckTx). Per transaction the observer's sequence ledger must show: sender sequence +1 iff admitted (consensus result carries ante events), 0 otherwise; admitted nonce == pre-state sequence; no other EOA's sequence moves; rejected => empty full-store write set; hostile and replayed transactions never admitted. Non-trivial = distinct (lane x class x execution outcome)."
 	run.Floor("admitted transactions", run.Get("admitted"), int64(run.N(400, 8000)))
 	run.Floor("hostile transactions", run.Get("hostile_offered"), int64(run.N(150, 3000)))
